@@ -101,7 +101,7 @@ def handleC06 (f : List String) : Res :=
       let hasIndex := script.contains '['
       let nTemps := match m with | .ok d => d.temps.length | .error _ => 0
       let nt := nInst ≥ 2 && (hasShift || hasIndex || nTemps ≥ 2)
-      let tag := s!"tmpl={tmpl},refused={c05b implErr},dangling={c05b (!validateB ir)}"
+      let tag := s!"tmpl={tmpl},refused={c05b implErr},invalid={c05b (!validateB ir)},zeroshift={c05b (ir.any fun i => match i.op with | .shl _ 0 => true | _ => false)}"
       if implErr then { r with tag := tag }   -- refusal with an error is allowed
       else if outH == "panic" then specIf "no-panic" false { r with tag := tag }
       else
